@@ -14,7 +14,9 @@ EVID = os.path.join(VERIF, "evidence")
 VIOL = os.path.join(VERIF, "violations")
 KNOWN = os.path.join(VERIF, "known_findings.json")
 
-KANI_BASE = ["-Z", "unstable-options", "-Z", "stubbing"]
+# --no-assertion-reach-checks: Kani's per-assertion reachability annotation ("unreachable") is
+# not needed -- vacuity is handled by explicit kani::cover! witnesses -- and costs ~40% of the run.
+KANI_BASE = ["-Z", "unstable-options", "-Z", "stubbing", "--no-assertion-reach-checks"]
 CBMC_BASE = ["--max-field-sensitivity-array-size", "4096"]
 
 # loops that must be unrolled further than the (small) per-harness bound: the 8-bit
@@ -76,25 +78,37 @@ class Watchdog(threading.Thread):
         self.tag = tag
         self.stop = False
         self.killed = []
+        self.total_cap = 44 * 1024 * 1024  # KB: all cbmc of this run together
 
     def run(self):
         while not self.stop:
             try:
                 out = subprocess.run(["ps", "-eo", "pid,rss,args"], capture_output=True, text=True).stdout
+                mine = []
                 for line in out.splitlines()[1:]:
                     parts = line.split(None, 2)
                     if len(parts) < 3:
                         continue
                     pid, rss, args = int(parts[0]), int(parts[1]), parts[2]
-                    if args.startswith("cbmc ") and self.tag in args and rss > self.cap:
-                        try:
-                            os.kill(pid, signal.SIGKILL)
-                            self.killed.append((pid, rss))
-                        except ProcessLookupError:
-                            pass
+                    if args.startswith("cbmc ") and self.tag in args:
+                        mine.append((rss, pid))
+                        if rss > self.cap:
+                            self.kill(pid, rss)
+                # global cap: keep the machine out of the OOM killer's reach
+                total = sum(r for r, _ in mine)
+                if total > self.total_cap and mine:
+                    rss, pid = max(mine)
+                    self.kill(pid, rss)
             except Exception:
                 pass
             time.sleep(3)
+
+    def kill(self, pid, rss):
+        try:
+            os.kill(pid, signal.SIGKILL)
+            self.killed.append((pid, rss))
+        except ProcessLookupError:
+            pass
 
 
 # ------------------------------------------------------------------------------------
